@@ -324,6 +324,29 @@ pub fn run(tier: Tier) -> i32 {
     rep.sample(json!({"doc": document(&cases[cases.len() / 2]), "border": cases[cases.len() / 2].border}));
     rep.sample(json!({"doc": document(&cases[5])}));
     rep.absorb("extent", st);
+    // the root element wrapped in control elements which leave no trace in the output
+    let wrapped = [
+        ("<if test=\"1\"><svg width=\"100\" height=\"50\"><rect xy=\"30 30\" wh=\"20 10\"/></svg></if>", "30 30 20 10"),
+        ("<loop count=\"1\"><svg width=\"100\" height=\"50\"><rect xy=\"30 30\" wh=\"20 10\"/></svg></loop>", "30 30 20 10"),
+        ("<var a=\"1\"/><if test=\"$a\"><svg height=\"50\" width=\"100\"><g><rect xy=\"30 30\" wh=\"20 10\"/></g></svg></if>", "30 30 20 10"),
+    ];
+    let st = run_space(wrapped.len(), |i| {
+        let (doc, vb) = wrapped[i];
+        let out = run_str(doc, &Cfg { border: 0, ..Cfg::plain() });
+        let got = match &out {
+            Outcome::Ok(o) => xmlref::parse_tree(o, Mode::Document).ok().and_then(|t| xmlref::root(&t).and_then(|r| r.attr("viewBox").map(|v| v.to_string()))),
+            _ => None,
+        };
+        let ok = got.as_deref() == Some(vb);
+        CaseResult {
+            case_hash: hash64(&doc),
+            nontrivial: ok,
+            outcome_hash: hash64(&format!("{out:?}")),
+            executions: 1,
+            violation: if ok { None } else { Some(Violation { clause: "viewBox".into(), signature: format!("C08/wrapped-root/{i}"), case: json!({"input": doc, "wrapped": true}), detail: format!("{doc}\nexpected viewBox {vb:?}, observed {got:?}") }) },
+        }
+    });
+    rep.absorb("wrapped-root", st);
     rep.assume("item boxes are the generator's knowledge of absolute geometry (the per-element geometry itself is checked by C09/C11/C12/C13)");
     rep.finish()
 }
